@@ -21,9 +21,10 @@
      SResume t : t, parked on the lock, is resumed with the lock handed to it
      SWrite  t : the transport suspension of holder t ends normally (next piece is written, or the send returns)
      SFail   t : the transport suspension of t raises a connection error
-     SCancel t : CancelledError is delivered to t at its current await (not yet started / lock wait / transport)  *)
+     SCancel t : CancelledError is delivered to t at its current await (not yet started / lock wait / transport)
+     SFutCancel t : task.cancel() reaches t while it is parked on the lock (matters for asyncio.Lock only)       *)
 From Coq Require Import List Arith Bool ZArith.
-From EN Require Import Lib.Bytes Conc.FairLock Conc.Guard.
+From EN Require Import Lib.Bytes Conc.FairLock Conc.AsyncioLock Conc.Guard.
 Import ListNotations.
 
 Definition packet := list bytes.
@@ -46,9 +47,14 @@ Inductive segst := SgActive | SgComplete | SgAborted.
 Record seg := mkSeg { sg_owner : tid; sg_pkt : packet; sg_written : nat; sg_st : segst }.
 Definition seg_bytes (g : seg) : bytes := concat (firstn (sg_written g) (sg_pkt g)).
 
+(* which send lock the client object uses: none (AsyncStreamEndpoint used directly), the FairLock of /repo, or CPython's
+   asyncio.Lock (what the asyncio backend returns from create_fair_lock()) *)
+Inductive lkind := LNone | LFair | LAsyncio.
+
 Record st := mkSt {
-  s_uselock : bool;          (* false: AsyncStreamEndpoint used directly, no client lock *)
+  s_lk : lkind;
   s_lock : fl;
+  s_alock : al;
   s_guard : guard;
   s_tasks : list tstate;
   s_wire : bytes;            (* what the peer has received so far *)
@@ -56,19 +62,21 @@ Record st := mkSt {
   s_crashed : bool           (* RuntimeError("Lock not acquired") / AssertionError of the guard: never, see Props *)
 }.
 
-Definition st_init (uselock : bool) (progs : list (list packet)) : st :=
-  mkSt uselock fl_init guard_init (map TNew progs) [] [] false.
+Definition st_init (k : lkind) (progs : list (list packet)) : st :=
+  mkSt k fl_init al_init guard_init (map TNew progs) [] [] false.
 
 Definition with_lock (l : fl) (s : st) : st :=
-  mkSt (s_uselock s) l (s_guard s) (s_tasks s) (s_wire s) (s_segs s) (s_crashed s).
+  mkSt (s_lk s) l (s_alock s) (s_guard s) (s_tasks s) (s_wire s) (s_segs s) (s_crashed s).
 Definition with_guard (g : guard) (s : st) : st :=
-  mkSt (s_uselock s) (s_lock s) g (s_tasks s) (s_wire s) (s_segs s) (s_crashed s).
+  mkSt (s_lk s) (s_lock s) (s_alock s) g (s_tasks s) (s_wire s) (s_segs s) (s_crashed s).
 Definition with_tasks (ts : list tstate) (s : st) : st :=
-  mkSt (s_uselock s) (s_lock s) (s_guard s) ts (s_wire s) (s_segs s) (s_crashed s).
+  mkSt (s_lk s) (s_lock s) (s_alock s) (s_guard s) ts (s_wire s) (s_segs s) (s_crashed s).
 Definition with_wire (w : bytes) (sg : list seg) (s : st) : st :=
-  mkSt (s_uselock s) (s_lock s) (s_guard s) (s_tasks s) w sg (s_crashed s).
+  mkSt (s_lk s) (s_lock s) (s_alock s) (s_guard s) (s_tasks s) w sg (s_crashed s).
 Definition crash (s : st) : st :=
-  mkSt (s_uselock s) (s_lock s) (s_guard s) (s_tasks s) (s_wire s) (s_segs s) true.
+  mkSt (s_lk s) (s_lock s) (s_alock s) (s_guard s) (s_tasks s) (s_wire s) (s_segs s) true.
+Definition with_alock (l : al) (s : st) : st :=
+  mkSt (s_lk s) (s_lock s) l (s_guard s) (s_tasks s) (s_wire s) (s_segs s) (s_crashed s).
 
 Fixpoint upd {X} (n : nat) (x : X) (l : list X) : list X :=
   match l, n with
@@ -82,9 +90,38 @@ Definition get_task (t : tid) (s : st) : option tstate := nth_error (s_tasks s) 
 
 (* __aexit__ of the send lock *)
 Definition unlock (t : tid) (s : st) : st :=
-  if s_uselock s then
-    match fl_release t (s_lock s) with Some l => with_lock l s | None => crash s end
-  else s.
+  match s_lk s with
+  | LNone => s
+  | LFair => match fl_release t (s_lock s) with Some l => with_lock l s | None => crash s end
+  | LAsyncio => match al_release t (s_alock s) with Some l => with_alock l s | None => crash s end
+  end.
+
+(* __aenter__ of the send lock: the new state and whether the lock was obtained without waiting *)
+Definition acquire (t : tid) (s : st) : st * bool :=
+  match s_lk s with
+  | LNone => (s, true)
+  | LFair => let '(l, got) := fl_acquire t (s_lock s) in (with_lock l s, got)
+  | LAsyncio => let '(l, got) := al_acquire t (s_alock s) in (with_alock l s, got)
+  end.
+
+(* the parked task is handed the lock / leaves the queue with CancelledError / its future is cancelled *)
+Definition lk_resume (t : tid) (s : st) : option st :=
+  match s_lk s with
+  | LNone => None
+  | LFair => option_map (fun l => with_lock l s) (fl_resume t (s_lock s))
+  | LAsyncio => option_map (fun l => with_alock l s) (al_resume t (s_alock s))
+  end.
+Definition lk_cancel (t : tid) (s : st) : option st :=
+  match s_lk s with
+  | LNone => None
+  | LFair => option_map (fun l => with_lock l s) (fl_cancel t (s_lock s))
+  | LAsyncio => option_map (fun l => with_alock l s) (al_cancel t (s_alock s))
+  end.
+Definition lk_futcancel (t : tid) (s : st) : option st :=
+  match s_lk s with
+  | LAsyncio => option_map (fun l => with_alock l s) (al_futcancel t (s_alock s))
+  | _ => Some s
+  end.
 
 (* __exit__ of the send guard *)
 Definition gexit (s : st) : st :=
@@ -127,14 +164,12 @@ Fixpoint run_task (t : tid) (prog : list packet) (s : st) {struct prog} : st :=
   match prog with
   | [] => set_task t (TDone c_ok) s
   | p :: rest =>
-      if s_uselock s then
-        let '(l, got) := fl_acquire t (s_lock s) in
-        if got then send_body t p rest (run_task t rest) (with_lock l s)
-        else set_task t (TWait p rest) (with_lock l s)
-      else send_body t p rest (run_task t rest) s
+      let '(s1, got) := acquire t s in
+      if got then send_body t p rest (run_task t rest) s1 else set_task t (TWait p rest) s1
   end.
 
-Inductive slabel := SStart (t : tid) | SResume (t : tid) | SWrite (t : tid) | SFail (t : tid) | SCancel (t : tid).
+Inductive slabel := SStart (t : tid) | SResume (t : tid) | SWrite (t : tid) | SFail (t : tid) | SCancel (t : tid)
+                | SFutCancel (t : tid).
 
 Definition s_next (s : st) (l : slabel) : option st :=
   match l with
@@ -146,8 +181,8 @@ Definition s_next (s : st) (l : slabel) : option st :=
   | SResume t =>
       match get_task t s with
       | Some (TWait p rest) =>
-          match fl_resume t (s_lock s) with
-          | Some l => Some (send_body t p rest (run_task t rest) (with_lock l (set_task t TRun s)))
+          match lk_resume t (set_task t TRun s) with
+          | Some s1 => Some (send_body t p rest (run_task t rest) s1)
           | None => None
           end
       | _ => None
@@ -167,11 +202,18 @@ Definition s_next (s : st) (l : slabel) : option st :=
       match get_task t s with
       | Some (TNew _) => Some (set_task t (TDone c_cancelled) s)
       | Some (TWait _ _) =>
-          match fl_cancel t (s_lock s) with
-          | Some l => Some (set_task t (TDone c_cancelled) (with_lock l s))
+          match lk_cancel t s with
+          | Some s1 => Some (set_task t (TDone c_cancelled) s1)
           | None => None
           end
       | Some (TSend _ _) => Some (abort_send t c_cancelled s)
+      | _ => None
+      end
+  | SFutCancel t =>
+      (* task.cancel() reaches a task parked on the lock: asyncio.Lock's waiter future is cancelled at once (the
+         other locks do not look at it); the task's CancelledError (SCancel) comes later *)
+      match get_task t s with
+      | Some (TWait _ _) => lk_futcancel t s
       | _ => None
       end
   end.
